@@ -1469,6 +1469,100 @@ func (g *gen) memHistories(n, deep int) {
 	}
 }
 
+// ---- JSON helpers (objects/json.go) and the remaining constructors ----------
+
+type jval struct {
+	S string
+	N int
+	L []int
+	M map[string]string `json:",omitempty"`
+}
+
+func (g *gen) jsonCases(n int) {
+	r := g.r
+	for i := 0; i < n; i++ {
+		kind := []string{"fs", "mem", "mapped", "mapped-psqlnil"}[i%4]
+		var o objects.Objects
+		var env *fsEnv
+		switch kind {
+		case "fs":
+			env = newFsEnv(false, r)
+			o = env.o
+		case "mem":
+			o = objects.NewMem()
+		case "mapped":
+			o = objects.NewMapped(objects.NewMemStore())
+		default:
+			o = objects.NewMapped(objects.NewPsql(nil)) // no database: falls back to the memory store
+		}
+		c := &Case{Stream: "json", Kind: kind}
+		add := func(op Op, ob Obs) {
+			c.Ops = append(c.Ops, op)
+			c.Obs = append(c.Obs, ob)
+		}
+		var keys []string
+		var vals []jval
+		for j := 0; j < 1+r.Intn(4); j++ {
+			v := jval{S: hex.EncodeToString(r.Bytes(r.Intn(12))), N: int(int32(r.U64())), L: []int{r.Intn(9), j}}
+			if r.Bool() {
+				v.M = map[string]string{"k": "v", "a\"b": "<&>"}
+			}
+			bs, _ := json.Marshal(v)
+			k, err := objects.CreateJSON(o, v)
+			ob := Obs{T: "key", Key: k}
+			if err != nil {
+				ob = errObs(err)
+			}
+			add(Op{Op: "cjson", B: segsOf(bs)}, ob)
+			keys = append(keys, k)
+			vals = append(vals, v)
+		}
+		for j, k := range keys {
+			var got jval
+			err := objects.ReadJSON(o, k, &got)
+			ob := Obs{T: "bool", V: fmt.Sprint(got) == fmt.Sprint(vals[j])}
+			if err != nil {
+				ob = errObs(err)
+			}
+			add(Op{Op: "rjson", Key: k, H: 1}, ob)
+		}
+		// an absent key, an object that is not JSON, an object with bytes after the first value
+		var got jval
+		err := objects.ReadJSON(o, shaHex([]byte("absent")), &got)
+		ob := Obs{T: "bool", V: true}
+		if err != nil {
+			ob = errObs(err)
+			if errcode.IsNotFound(err) {
+				ob = Obs{T: "notfound"}
+			}
+		}
+		add(Op{Op: "rjson", Key: shaHex([]byte("absent")), H: 0}, ob)
+		raw := []byte("this is not JSON")
+		k1, _ := o.Create(bytes.NewReader(raw))
+		err = objects.ReadJSON(o, k1, &got)
+		ob = Obs{T: "bool", V: true}
+		if err != nil {
+			ob = errObs(err)
+		}
+		add(Op{Op: "rjson", Key: k1, H: 2, B: segsOf(raw)}, ob)
+		tail := []byte(`{"S":"x","N":1,"L":null} trailing`)
+		k2, _ := o.Create(bytes.NewReader(tail))
+		got = jval{}
+		err = objects.ReadJSON(o, k2, &got)
+		ob = Obs{T: "bool", V: got.S == "x" && got.N == 1}
+		if err != nil {
+			ob = errObs(err)
+		}
+		add(Op{Op: "rjson", Key: k2, H: 3, B: segsOf(tail)}, ob)
+		if env != nil {
+			fin := env.ls()
+			c.Final = &fin
+			env.close()
+		}
+		g.emit(c)
+	}
+}
+
 // ---- CheckReader ------------------------------------------------------------
 
 func crCode(err error) int {
@@ -1858,7 +1952,7 @@ func main() {
 	dir := flag.String("dir", "", "scratch directory for store directories")
 	big := flag.Int("big", 70000, "size of the largest contents")
 	deep := flag.Int("deep", 1, "depth of the enumerations")
-	streams := flag.String("streams", "", "comma separated subset of: mem,fsfault,fsos,fshist,sched,peek,free,cr (default all)")
+	streams := flag.String("streams", "", "comma separated subset of: mem,fsfault,fsos,fshist,sched,peek,free,json,cr (default all)")
 	flag.Parse()
 	if *dir == "" {
 		fmt.Fprintln(os.Stderr, "need -dir")
@@ -1902,6 +1996,9 @@ func main() {
 	}
 	if on("free") {
 		g.free(*n/4, []string{"fs", "fs2", "mem", "mapped", "fs"})
+	}
+	if on("json") {
+		g.jsonCases(8 + *n/10)
 	}
 	if on("cr") {
 		g.checkReaders(*n, *deep)
